@@ -39,9 +39,9 @@ func ValidateRequiredFields(obj *unstructured.Unstructured, fieldsList [][]strin
 }
 
 var (
-	logDstEx     = regexp.MustCompile(`(?:syslog:server=((?:\d{1,3}\.){3}\d{1,3}|localhost|[a-zA-Z0-9._-]+):\d{1,5})|stderr|(?:\/[\S]+)+`)
-	logDstFileEx = regexp.MustCompile(`(?:\/[\S]+)+`)
-	logDstFQDNEx = regexp.MustCompile(`(?:[a-zA-Z0-9_-]+\.)+[a-zA-Z0-9_-]+`)
+	logDstEx     = regexp.MustCompile(`^(?:(?:syslog:server=((?:\d{1,3}\.){3}\d{1,3}|localhost|[a-zA-Z0-9._-]+):\d{1,5})|stderr|(?:\/[^\s;{}"'\\$#]+)+)$`)
+	logDstFileEx = regexp.MustCompile(`^(?:\/[^\s;{}"'\\$#]+)+$`)
+	logDstFQDNEx = regexp.MustCompile(`^(?:[a-zA-Z0-9_-]+\.)+[a-zA-Z0-9_-]+$`)
 )
 
 // ValidateAppProtectLogDestination validates destination for log configuration
